@@ -980,8 +980,10 @@ class SplineModel(object):
         cps = np.zeros((self.ncps, self.dimension))
         for node in self.catalogue.top_nodes():
             indices = node.cp_numbers.reshape(-1)
-            values = node.obj.controlpoints.reshape(-1, self.dimension)
-            cps[indices] = values
+            values = node.obj.controlpoints
+            if node.obj.rational:
+                values = values[..., :-1] / values[..., -1:]
+            cps[indices] = values.reshape(-1, self.dimension)
         return cps
 
     def faces(self):
